@@ -98,6 +98,10 @@ STATEMENT_STATUS: Dict[str, str] = {
     "eol_rejected": "proved (round 6): a single EOL code after any rows (EndOfLine-style data) raises InvalidData",
     "blackIs1_only_polarity": "proved (round 6) for EVERY byte string and parameter combination: BlackIs1 changes only "
                               "the polarity - same error, or one list of rows packed with either polarity",
+    "columns_invalid_rejected": "proved (round 6d) for every invalid Columns value (integer <= 0, false, non-integer "
+                                "object), all data and flags: direct call gives TypeError (non-integer) or data / "
+                                "InvalidData / IndexError (width <= 0), PDFStream.get_data() only data or the library's "
+                                "error family (IndexError, TypeError are in the regenerated _DECODE_ERRORS)",
     "k_not_group4_rejected": "proved (round 6): K = 0, K > 0, K < -1, absent or non-numeric K -> PDFValueError "
                              "whatever the data and the other entries",
 }
@@ -1113,6 +1117,72 @@ def run_polarity(ctx: C.Ctx, b: Batch) -> None:
             b.add_dec(data, -1, w, align, rv, tag=tag)
 
 
+def eval_columns(data: bytes, v: Any, align: bool, rev: bool, strict: bool) -> Tuple[str, str, bool]:
+    """-> (direct call result, get_data() result, get_data stayed inside data / PDFException family)"""
+    from pdfminer import settings
+    from pdfminer.ccitt import ccittfaxdecode
+    from pdfminer.pdfexceptions import PDFException
+    from pdfminer.pdftypes import PDFStream
+    from pdfminer.psparser import LIT
+    params = {"K": -1, "Columns": v, "EncodedByteAlign": align, "BlackIs1": rev}
+    try:
+        direct = "ok:" + C.hx(bytes(ccittfaxdecode(data, dict(params))))
+    except Exception as e:  # noqa: BLE001
+        direct = "EXC:" + type(e).__name__
+    old = settings.STRICT
+    settings.STRICT = strict
+    inside = True
+    try:
+        st = "ok:" + C.hx(bytes(PDFStream({"Filter": LIT("CCITTFaxDecode"), "DecodeParms": dict(params)}, data).get_data()))
+    except Exception as e:  # noqa: BLE001
+        st = "EXC:" + type(e).__name__
+        inside = isinstance(e, PDFException)
+    finally:
+        settings.STRICT = old
+    return direct, st, inside
+
+
+def add_columns(ctx: C.Ctx, b: Batch, data: bytes, v: Any, align: bool, rev: bool, strict: bool, tag: str) -> None:
+    direct, st, inside = eval_columns(data, v, align, rev, strict)
+    tok = obj_tokens(v)
+    ctx.case(("cols", data, tok, align, rev, strict), True, branch="gen:" + tag)
+    ctx.branch("cols-direct:" + (direct[:3] if direct.startswith("ok") else direct))
+    ctx.branch("cols-stream:%s:%s" % ("strict" if strict else "lenient", st[:3] if st.startswith("ok") else st))
+    inp = {"cols": tok, "data": data.hex(), "align": align, "blackis1": rev, "strict": strict}
+    if not inside:
+        ctx.fail(C.Failure("PDFStream.get_data() leaked a non-PDFException for an invalid /Columns", inp,
+                           "data or PDFException", st, {"kind": "columns", "exception": st[4:]}))
+    b.add_raw("cols %d %d %d %s %s" % (strict, align, rev, C.hx(data), tok), inp, direct + " " + st)
+
+
+COLUMN_VALUES = None
+
+
+def run_columns(ctx: C.Ctx, b: Batch) -> None:
+    """Round 6d: invalid /Columns (integer <= 0, false, non-integer): direct call and PDFStream.get_data()."""
+    from pdfminer.psparser import LIT
+    rng = ctx.rng
+    values = [0, 0, -1, -5, -1000, False, None, LIT("x"), [], [5], {}, {"a": 1}, 5.0, 0.0, b"5"]
+    for i in range(ctx.n(600, 6000)):
+        k = rng.random()
+        if k < 0.45:
+            data, tag = gen_token_stream(rng), "cols-token-stream"
+        elif k < 0.6:
+            data, tag = bytes(rng.getrandbits(8) for _ in range(rng.randint(0, 8))), "cols-random-bytes"
+        elif k < 0.8:   # horizontal modes only: the one shape that decodes (to nothing) at width <= 0
+            bits = "".join(T6_MODE["h"] + code_run(rng.choice([0, 1, 5, 64, 70]), 1) + code_run(rng.choice([0, 2, 64]), 0)
+                           + ("0" * rng.randint(0, 7) if rng.random() < 0.3 else "")
+                           for _ in range(rng.randint(0, 4)))
+            if rng.random() < 0.5:
+                bits += T6_MODE["e"]
+            data, tag = bits_to_bytes(bits), "cols-horizontal-only"
+        else:
+            w = rng.choice([1, 3, 8, 17])
+            rows = [gen_row(rng, w, None)]
+            data, tag = encode_image(rows, w, gen_choices(rng, rows, w), rng.random() < 0.5, True)[0], "cols-image"
+        add_columns(ctx, b, data, rng.choice(values), rng.random() < 0.5, rng.random() < 0.5, rng.random() < 0.3, tag)
+
+
 def run_corpus(ctx: C.Ctx, b: Batch) -> None:
     for path in sorted(glob.glob(os.path.join(C.VERIF, "corpus", "C19", "*.json"))):
         with open(path) as fp:
@@ -1122,7 +1192,10 @@ def run_corpus(ctx: C.Ctx, b: Batch) -> None:
 
 def _replay(ctx: C.Ctx, b: Batch, doc, tag: str) -> None:
     inp = doc.get("input", {})
-    if "pol" in inp:
+    if "cols" in inp and "data" in inp and "strict" in inp:
+        ctx.branch("replay-columns-not-reconstructed")   # the object is stored as tokens; rerun the group instead
+        run_columns(ctx, b)
+    elif "pol" in inp:
         data, w, al = bytes.fromhex(inp["data"]), inp["Columns"], inp.get("align", False)
         got0, got1 = impl_decode(data, -1, w, al, False), impl_decode(data, -1, w, al, True)
         ctx.case(("pol", data, w, al), True, branch="gen:" + tag)
@@ -1167,5 +1240,6 @@ def run(ctx: C.Ctx) -> None:
     run_stream_params(ctx, b)
     run_round6(ctx, b)
     run_polarity(ctx, b)
+    run_columns(ctx, b)
     run_exhaustive(ctx, b)
     b.flush()
